@@ -61,6 +61,8 @@ def gen(rng, tier):
         for kind in (1, 3, 4, 5, 0):
             cases.append({"op": "log_encode", "input": [inst_with(rng, kind, (0.0, 3.0)), 5], "stream": "err/kind"})
         cases.append({"op": "log_encode", "input": [inst_with(rng, 2, None), 5], "stream": "err/nobound"})
+        # an instance that defines no variable at all: the id is unknown, which is an error (not a panic)
+        cases.append({"op": "log_encode", "input": [[1, [], [], [], [], [], [], [], []], rng.choice([0, 5, 2 ** 62])], "stream": "err/empty-instance"})
         for b in ((0.0, INF), (-INF, 3.0), (-INF, INF), (float("nan"), 3.0), (0.0, float("nan"))):
             cases.append({"op": "log_encode", "input": [inst_with(rng, 2, b), 5], "stream": "err/nonfinite"})
         for b in ((0.25, 0.75), (2.5, 2.75), (-0.5, -0.25), (3.0, 1.0)):
